@@ -1,4 +1,7 @@
 import FeatModel.Model.Adjacency
+import FeatModel.Lemmas.C19_cm
+import FeatModel.Lemmas.C19_color
+import FeatModel.Lemmas.C19_perms
 import FeatModel.Lemmas.C19_renders
 /-! # C19 — property theorems (statements only; proofs live in Lemmas/C19_*.lean) -/
 open FeatModel.Adj
@@ -8,28 +11,94 @@ theorem C19.render_asIs_spec (g : Graph) : g.render 0 = some g := rfl
 theorem C19.injectify_spec (g : Graph) (i : Nat) :
     (g.injectify.row i).Nodup ∧ (∀ k, k ∈ g.injectify.row i ↔ k ∈ g.row i) ∧
     (g.injectify.row i).Sublist (g.row i) ∧ g.injectify.nImg = g.nImg ∧ g.injectify.nDom = g.nDom :=
-  C19L.injectify_spec g i
+  C19L.renders.injectify_spec g i
 
 theorem C19.transpose_spec (g : Graph) (i j : Nat) (hi : i < g.nImg) :
     (g.transpose.row i).count j = (g.row j).count i ∧ (g.transpose.row i).Pairwise (· ≤ ·) ∧
     g.transpose.nDom = g.nImg ∧ g.transpose.nImg = g.nDom :=
-  C19L.transpose_spec g i j hi
+  C19L.renders.transpose_spec g i j hi
 
 theorem C19.injectifyTranspose_spec (g : Graph) (i j : Nat) (hi : i < g.nImg) :
     (j ∈ g.injectifyTranspose.row i ↔ i ∈ g.row j) ∧ (g.injectifyTranspose.row i).Pairwise (· < ·) ∧
     g.injectifyTranspose.nDom = g.nImg ∧ g.injectifyTranspose.nImg = g.nDom :=
-  C19L.injectifyTranspose_spec g i j hi
+  C19L.renders.injectifyTranspose_spec g i j hi
 
 theorem C19.compose_spec (a b : Graph) (i : Nat) :
     (Graph.compose a b).row i = (a.row i).flatMap b.row ∧
     (∀ k, k ∈ (Graph.compose a b).row i ↔ ∃ j, j ∈ a.row i ∧ k ∈ b.row j) :=
-  C19L.compose_spec a b i
+  C19L.renders.compose_spec a b i
 
 theorem C19.sortIndices_spec (g : Graph) (i : Nat) :
     (g.sortIndices.row i).Perm (g.row i) ∧ (g.sortIndices.row i).Pairwise (· ≤ ·) :=
-  C19L.sortIndices_spec g i
+  C19L.renders.sortIndices_spec g i
 
 theorem C19.arrays_faithful (g : Graph) (i : Nat) (hi : i < g.nDom) :
     g.domainPtr.length = g.nDom + 1 ∧
     g.row i = (g.imageIdx.drop (g.domainPtr.getD i 0)).take (g.domainPtr.getD (i+1) 0 - g.domainPtr.getD i 0) :=
-  C19L.arrays_faithful g i hi
+  C19L.renders.arrays_faithful g i hi
+
+theorem C19.swapFromPerm_terminates (p : List Nat) (h : Perm.isBijection p = true) :
+    ∃ s, Perm.swapFromPerm p = some s ∧ s.length = p.length ∧
+      ∀ i, i < p.length → i ≤ s.getD i 0 ∧ s.getD i 0 < p.length :=
+  C19L.perms.swapFromPerm_terminates p h
+
+theorem C19.swap_perm_agree {α : Type} [Inhabited α] (p s : List Nat) (h : Perm.isBijection p = true)
+    (hs : Perm.swapFromPerm p = some s) (x : Array α) (hx : x.size = p.length) :
+    (Perm.applySwaps s x).toList = Perm.applyPerm p x.toList :=
+  C19L.perms.swap_perm_agree p s h hs x hx
+
+theorem C19.inverse_swaps_undo {α : Type} (s : List Nat) (x : Array α) :
+    Perm.applySwapsInv s (Perm.applySwaps s x) = x ∧ Perm.applySwaps s (Perm.applySwapsInv s x) = x :=
+  C19L.perms.inverse_swaps_undo s x
+
+theorem C19.applyPermInv_undoes {α : Type} [Inhabited α] (p : List Nat) (h : Perm.isBijection p = true)
+    (x : List α) (hx : x.length = p.length) :
+    Perm.applyPermInv p (Perm.applyPerm p x) = x ∧ Perm.applyPerm p (Perm.applyPermInv p x) = x :=
+  C19L.perms.applyPermInv_undoes p h x hx
+
+theorem C19.invPerm_spec (p : List Nat) (h : Perm.isBijection p = true) :
+    Perm.isBijection (Perm.invPerm p) = true ∧
+    (∀ i, i < p.length → (Perm.invPerm p).getD (p.getD i 0) 0 = i) ∧
+    (∀ k, k < p.length → p.getD ((Perm.invPerm p).getD k 0) 0 = k) :=
+  C19L.perms.invPerm_spec p h
+
+theorem C19.concat_composes {α : Type} [Inhabited α] (p1 p2 : List Nat) (x : List α)
+    (h1 : Perm.isBijection p1 = true) (h2 : Perm.isBijection p2 = true) (hl : p1.length = p2.length)
+    (hx : x.length = p1.length) :
+    Perm.isBijection (p1.map fun k => p2.getD k 0) = true ∧
+    Perm.applyPerm (p1.map fun k => p2.getD k 0) x = Perm.applyPerm p1 (Perm.applyPerm p2 x) :=
+  C19L.perms.concat_composes p1 p2 x h1 h2 hl hx
+
+theorem C19.permFromSwap_bijection (s : List Nat)
+    (hs : ∀ i, i < s.length → i ≤ s.getD i 0 ∧ s.getD i 0 < s.length) :
+    Perm.isBijection (Perm.permFromSwap s) = true :=
+  C19L.perms.permFromSwap_bijection s hs
+
+theorem C19.coloring_proper (g : Graph) (hsq : g.nImg = g.nDom) (hwf : g.wf = true)
+    (hsym : ∀ i j, j ∈ g.row i → i ∈ g.row j) :
+    ∀ i j, i < g.nDom → j ∈ g.row i → j ≠ i →
+      (Coloring.greedy g).coloring.getD i 0 ≠ (Coloring.greedy g).coloring.getD j 0 :=
+  C19L.color.coloring_proper g hsq hwf hsym
+
+theorem C19.coloring_bounds (g : Graph) (hsq : g.nImg = g.nDom) (hwf : g.wf = true) :
+    (Coloring.greedy g).numColors ≤ g.maxDegree + 1 ∧
+    ∀ i, i < g.nDom → (Coloring.greedy g).coloring.getD i 0 < (Coloring.greedy g).numColors :=
+  C19L.color.coloring_bounds g hsq hwf
+
+theorem C19.coloringOrdered_proper (g : Graph) (order : List Nat) (hsq : g.nImg = g.nDom) (hwf : g.wf = true)
+    (hord : Perm.isBijection order = true) (hlen : order.length = g.nDom)
+    (hsym : ∀ i j, j ∈ g.row i → i ∈ g.row j) :
+    ∀ i j, i < g.nDom → j ∈ g.row i → j ≠ i →
+      (Coloring.greedyOrdered g order).coloring.getD i 0 ≠ (Coloring.greedyOrdered g order).coloring.getD j 0 :=
+  C19L.color.coloringOrdered_proper g order hsq hwf hord hlen hsym
+
+theorem C19.partitionGraph_spec (nc : Nat) (col : List Nat) (h : ∀ c, c ∈ col → c < nc) (j : Nat) (hj : j < col.length) :
+    (∀ c, j ∈ (Coloring.partitionGraph nc col).row c ↔ col.getD j 0 = c) ∧
+    (∀ c, ((Coloring.partitionGraph nc col).row c).count j ≤ 1) :=
+  C19L.color.partitionGraph_spec nc col h j hj
+
+theorem C19.cm_bijection (g : Graph) (hsq : g.nImg = g.nDom) (hwf : g.wf = true) (hn : 0 < g.nDom)
+    (rev : Bool) (rt : CM.RootType) (st : CM.SortType) :
+    ∃ perm layers, CM.compute g rev rt st = some (perm, layers) ∧ perm.length = g.nDom ∧
+      Perm.isBijection perm = true :=
+  C19L.cm.cm_bijection g hsq hwf hn rev rt st
